@@ -23,6 +23,9 @@
       polynomial in the model" is refuted (finding model_validation_hascycle_cost: a 1 KB model
       keeps WriteAuthorizationModel busy far beyond the request deadline).
 
+   G. panics raised below the handlers: RecoverFromPanic never re-panics (the r.(error) variant
+      does); which recovery sites keep the process alive.
+
    NOT covered by proof (explored by the driver only, see checks/C19.json): everything else the
    request touches -- protobuf and JSON decoding, protoc-gen-validate, cel-go, the typesystem
    validators themselves, the graph resolvers' goroutines, the SQL drivers; memory growth in
@@ -356,3 +359,48 @@ Example hascycle_ex :
   fst (model_cost 9 [[RComputed 1; RComputed 0]] 1000) = HCycle /\
   fst (model_cost 9 [[RComputed 7]] 1000) = HErr.
 Proof. repeat split; vm_compute; reflexivity. Qed.
+
+(* ================================================================== *)
+(* G. panics raised below the handlers                                   *)
+(* ================================================================== *)
+
+(* internal/concurrency/panic.go RecoverFromPanic formats the recovered value with %v: it cannot
+   panic itself, for any panic value (error, string, any other value, runtime error) *)
+Theorem recover_never_repanics : forall v : pvalue, recover_to_error v <> Panic.
+Proof. exact NoPanicProofs.recover_never_repanics. Qed.
+Print Assumptions recover_never_repanics.
+(* mirror: with `%w` and r.(error) the statement is false, exactly for the non-error values *)
+Theorem recover_never_repanics_assert_variant_refuted : exists v, recover_to_error_assert v = Panic.
+Proof. exact NoPanicProofs.recover_never_repanics_assert_variant_refuted. Qed.
+Print Assumptions recover_never_repanics_assert_variant_refuted.
+Theorem recover_assert_variant_repanics_iff : forall v : pvalue,
+  recover_to_error_assert v = Panic <-> implements_error v = false.
+Proof. exact NoPanicProofs.recover_assert_variant_repanics_iff. Qed.
+Print Assumptions recover_assert_variant_repanics_iff.
+Example recover_ex :
+  recover_to_error PVString = Ok PVString /\ recover_to_error_assert PVRuntime = Ok PVRuntime /\
+  recover_to_error_assert PVStruct = Panic.
+Proof. repeat split; reflexivity. Qed.
+
+Theorem pipeline_worker_captures_every_panic : forall v : pvalue, fate_of SPipeline v = FError.
+Proof. exact NoPanicProofs.pipeline_worker_captures_every_panic. Qed.
+Print Assumptions pipeline_worker_captures_every_panic.
+Theorem pipeline_worker_captures_every_panic_assert_variant_refuted :
+  exists v, fate_of_assert_variant SPipeline v = FDies.
+Proof. exact NoPanicProofs.pipeline_worker_captures_every_panic_assert_variant_refuted. Qed.
+Print Assumptions pipeline_worker_captures_every_panic_assert_variant_refuted.
+
+(* THE FULL-STRENGTH STATEMENT (forall s v, fate_of s v <> FDies: no panic below the handlers
+   kills the process) is refuted by the code as it is: findings
+   listobjects_reverse_expand_panic_kills_process and unrecovered_goroutine_panic_kills_process *)
+Theorem process_survives_refuted : exists s v, fate_of s v = FDies.
+Proof. exact NoPanicProofs.process_survives_refuted. Qed.
+Print Assumptions process_survives_refuted.
+Theorem process_survives_iff : forall (s : psite) (v : pvalue),
+  fate_of s v <> FDies <-> (s <> SEvaluate /\ s <> SOther).
+Proof. exact NoPanicProofs.process_survives_iff. Qed.
+Print Assumptions process_survives_iff.
+Example fate_ex :
+  fate_of SHandler PVString = FInterceptor /\ fate_of STry PVStruct = FError /\
+  fate_of SPipeline PVString = FError /\ fate_of SEvaluate PVError = FDies.
+Proof. repeat split; reflexivity. Qed.
